@@ -52,6 +52,7 @@ pub fn check_text(s: &mut Stats, fam: &str, text: &str, max_depth: usize) {
     s.states += 1;
     s.transitions += 1;
     let want = rj::parse(text, max_depth);
+    let _call = crate::report::enter(text.as_bytes());
     let got = std::panic::catch_unwind(|| {
         if max_depth == 256 {
             Value::parse(text)
